@@ -146,15 +146,18 @@ theorem C22_method_by_name {ν : Type} [DecidableEq ν] (iface impl : List ν) (
     obtain ⟨hj, hp, _⟩ := this
     exact ⟨hj, hlt, by simpa [hname] using hp⟩
 
-/-- N5: selecting by position (today's code) differs as soon as the implementation lists its
-    methods in another order than the interface -/
+/-- D48 (repaired in /repo): selecting by position, as the code did before, differs as soon as the
+    implementation lists its methods in another order than the interface -/
 theorem C22_method_by_position_counterexample :
     methodByPosition ["sides", "area"] 0 = some 0 ∧ methodByName ["area", "sides"] ["sides", "area"] 0 = some 1 := by
   decide
 
-/-- An interface method used as a function value is dispatched exactly like a call of that method:
-    the same implementation (selected from the instantiated type of the value) and the method with
-    the same NAME — never the method that merely sits at the interface method's position. -/
+/-- In the model an interface method used as a function value is dispatched exactly like a call of
+    that method: `dispatchValue` / `methodOfValue` are defined by the same expressions as `dispatch` /
+    `methodByName`, so this equation holds by `rfl` — it records the modelling decision, it is not
+    evidence about the code.  That /repo's value path (`translate_declaration`, InterfaceMethod arm)
+    really behaves like its call path is checked only by the `monov` correspondence (method values
+    at implementations with permuted method order). -/
 theorem C22_method_value_eq_call {ν : Type} [DecidableEq ν] (sig inst msig ty : Ty) (impls : List Ty)
     (ifaceMethods implMethods : List ν) (idx : Nat) :
     dispatchValue sig inst msig ty impls = dispatch sig inst msig ty impls ∧
@@ -256,10 +259,13 @@ theorem C22_label_per_instantiation (st : LabelState) (h : Reachable st) (e1 e2 
   have hp : e1.1.plain = false := by simp [Desc.plain, hov]
   exact hdiff (hc hp).2
 
-/-- The monotype inside a label names nominal types by their DECLARATION: the rendering is
-    injective, so two instantiations of one generic function (or interface method) at two different
-    concrete types never share a label — in particular not at two types that merely have the same
-    unqualified name in two modules. -/
+/-- The type component of a descriptor (`Ty.code`) identifies nominal types by their DECLARATION and
+    is injective (`code_injective`); therefore, in the model, two instantiations of one generic
+    function requested one after the other at two different types get two labels (different
+    descriptors → a new `func_map` entry with a fresh counter) — in particular at two types that
+    merely have the same unqualified name in two modules.  (In /repo the printed label text names
+    such types alike; distinctness comes from the descriptor key and the counter, see `Mono.lean`.
+    The tie to the code is the `monolabel` correspondence on programs with same-named types.) -/
 theorem C22_label_qualified (f : Nat) (t1 t2 : Ty)
     (h : (twoLabels f t1 t2).1 = (twoLabels f t1 t2).2) : t1 = t2 := by
   unfold twoLabels getLabel at h
